@@ -36,7 +36,7 @@ func init() {
 		Cases: func(tier string) int { return vlib.TierN(tier, 750, 150000) },
 		Rule: "case idx%12 in 0..3: publisher stack (depth 0..3 drawn from transform / delay.Publisher / metrics decorator of one builder, the metrics decorator " +
 			"possibly twice) around a scripted publisher; 3..8 Publish calls with fresh batches of 0..4 messages mixing pre-set delay metadata (delay.Message), " +
-			"context delays (For/Until: -1h, 0, +10y, small) and none, PublisherConfig {generator absent/present/failing} x AllowNoDelay, scripted inner errors; " +
+			"context delays (For/Until: -1h, 0, +10y, small) and none, PublisherConfig {generator absent/present/failing} x AllowNoDelay (a generator failure refuses the batch with an error in both AllowNoDelay settings: clause generator-error-swallowed), scripted inner errors; " +
 			"idx%12 in 4..5: subscriber stack (depth 0..3 of transform / metrics, also twice) around a scripted subscriber, 1..2 subscriptions, messages acked, nacked or " +
 			"held back (two-phase metric comparison), Subscribe/Close errors; idx%12 in 6..7: Router with metrics decorators (once / twice) and middleware, Recoverer absent / outside / inside, " +
 			"handler outcome sequences over {success, error, panic, publish failure} with broker-like redelivery; " +
@@ -67,7 +67,7 @@ func init() {
 			"subclose class: the inner subscriber honours the Subscriber godoc ('Close closes all subscriptions with their output channels') in every Close call, also in those that report an error; a Subscribe on a closed stack may be refused by the decorator itself ('subscriber closed') - only an error of the inner Subscribe has to come through",
 			"subclose class: a message that the decorators give back themselves (nack, never delivered) may or may not be counted by the subscriber metric (the statement counts received messages)",
 			"delay bracket checks compare wall-clock readings taken around the construction of the Delay (no wall-clock step inside that window)",
-			"generator failing together with AllowNoDelay is not decided by the statement: either refusing or forwarding unstamped is accepted",
+			"a failing DefaultDelayGenerator is an error of Publish also when AllowNoDelay is set (clause generator-error-swallowed; pubstack and pubretry classes): the statement's precedence chain ends in 'else the default generator' whenever one is configured and lists 'generator failing' as a setting of its own, and PublisherConfig's godoc ties AllowNoDelay to the absence of a generator ('By default, the publisher returns an error when a message is published without a delay and no default delay generator is provided'); only the presence of an error is demanded, not its identity (counter generator_errors_returned_as_is)",
 			"metrics middleware is applied once per router (the statement's 'applied twice' is exercised for the publisher/subscriber decorators, which carry the idempotency mark; C20_MIDDLEWARE_TWICE=1 adds a router variant with the middleware doubled, clause metrics-handler-middleware-twice)",
 		},
 		Run: run,
